@@ -52,11 +52,15 @@ CHECKS = {
  "C16": dict(technique="Lean 4 proof about the tokenizer on every spelling of every argument list + tokenizer differential (ASan) + a generated translation unit compiled through the real preprocessor",
    text="Theorems C16_tokens, C16_count, C16_bind_positions, C16_bind_unique, C16_absent and the F26 witness (Props/C16.lean): for every argument list of good identifiers and every string whose non-blank characters are that list, the names, double markers and argument count are right; tie: generated spellings (arity 0-12 and 20/40/63, blanks/tabs/newlines, box_double wrapping, identifiers that are prefixes/suffixes of one another) run through the real tokenizer under ASan, and generated mock functions of arity 0-8 with when()/capture/absent-name clauses at every position are compiled and run.",
    ref="§6 C16"),
+ "C10": dict(technique="Lean 4 proof (printing a percent-doubled text gives back the text; the message contains texts and values verbatim) + format tables regenerated from the C sources by a clang-AST translator with decidable typing obligations + message differential under ASan",
+   text="Theorems C10_double_then_print, C10_assert_message, C10_contains (Props/C10.lean) for every expression text, value text and template; tie (1): translate/formats.py re-extracts on every run every assert_true call site (format literal or variable, C types of the variadic arguments), every constructor's value templates and the legacy macros, and Lean checks the generated obligations (every conversion reads an argument of its width; non-literal formats are only the doubled message; value templates use pointer-width conversions; legacy macros pass the text through %s); tie (2): messages of every constraint kind, legacy assertion and mock parameter check produced by the real code for texts over {%,s,d,n,5,backslash,quote,...} and integers across the intptr_t range are compared with the model and searched for the literal texts and values.",
+   ref="§6 C10"),
 }
 MOCK_NOTE = ("Trusted: Lean kernel, harness/mock_ops.c and the CGREEN_VERIF queue-dump hook, the generators in harness/mock_checks.py. Modelled, not verified: parameter "
              "constraints are integer eq/ne/lt/gt clauses on up to three parameters, return values are integers; side effects, content setters, "
              "capture and double clauses are covered by C12/C15/C16; removal of never_expect entries is modelled as a filter (equivalent under the invariant of at most one per function).")
-NOTES = {"C16": "Trusted: Lean kernel, harness/tok_probe.c, the generated bind_probe translation unit, gcc's preprocessor (stringification). Modelled: identifiers contain no comma, parenthesis or white space; a trailing comma (which the preprocessor cannot produce) is outside the model.",
+NOTES = {"C10": "Trusted: Lean kernel, translate/formats.py (clang-14 JSON AST walk; kept to call sites, literals and types), harness/cmp_probe.c (captures the message with vsnprintf, i.e. glibc's printf family as the judge of what a format prints). Modelled, not verified: glibc printf conversions as modelled by Fmt.parseConv; double-valued messages (%f) are typed but their digits are not compared; the +512 slack of the message buffer is not proved sufficient (ASan watches it).",
+         "C16": "Trusted: Lean kernel, harness/tok_probe.c, the generated bind_probe translation unit, gcc's preprocessor (stringification). Modelled: identifiers contain no comma, parenthesis or white space; a trailing comma (which the preprocessor cannot produce) is outside the model.",
          "C20": "Trusted: Lean kernel, harness/vec_ops.c, harness/scenario_run.c, AddressSanitizer/UBSan as the judge of memory safety. Partial: the theorem covers CgreenVector (which backs expectations, constraints, parameter names and the runner's test list); fixed buffers, the breadcrumb and suite arrays are covered only by the sanitizer sweep, and memory safety of code the sweep does not reach is not shown.",
          "C05": "Trusted: Lean kernel, harness/cmp_probe.c, the Python oracles. Modelled, not verified: libc strcmp/strstr/strlen/memcmp as Lean definitions (C05_begins/C05_ends carry the explicit 2^32/2^31 length guards the C's unsigned/int intermediates impose); NULL string operands are covered by the model but not driven by the probe.",
          "C15": "Trusted: Lean kernel and the Mathlib lemmas used (axioms propext, Classical.choice, Quot.sound), harness/cmp_probe.c, Python Fractions. Partial: the theorems are about exact arithmetic; IEEE-754 rounding of '-' and '+', and libm log10/pow/floor, separate the C from it by a band the check measures (known finding F27 for the exact-threshold reading).",
